@@ -5,6 +5,11 @@
 //                             A = A0 * 2^k; route cf = eigenValues/eigenValuesVectors (closed form n<=3, LAPACK beyond),
 //                             route lap = eigenValuesLapack/eigenValuesVectorsLapack.  Floating point: impl line is the
 //                             shape only, the property is decided by the oracle (binary128 reference).
+//                             route cfq (T = d, n <= 3 only) = cf, and the impl line additionally carries the eigenvalues
+//                             (both entry points) and eigenvectors quantised to 2^-24 relative to 2^k, vectors
+//                             sign-normalised: the Lean model run over IEEE double must reproduce them.  Generated for
+//                             well-separated spectra only, where this is a canonical form of the answer that ulp-level
+//                             re-arrangements of the arithmetic do not change.
 //   ev2x T a b d e            exact 2x2 closed form on [[a,b],[b,d]] * 2^e (integers): bit-exact eigenvalues as dyadics,
 //                             sign pattern of the eigenvectors (= branch taken + column chosen)
 //   ev3x T a00 a01 a02 a11 a12 a22 e   exact 3x3 diagonal branch (threshold on the max-norm-scaled matrix)
@@ -331,6 +336,34 @@ static std::string checkSym(int n, const std::vector<Q>& A, const SymOut& o, Q e
 // ------------------------------------------------------------------------------------------------
 // calling the code under test
 // ------------------------------------------------------------------------------------------------
+// quantisation of double results for the correspondence with the Lean model over IEEE double:
+// floor(ldexp(x, 24 - k) + 0.5) (all operations exact or correctly rounded; the same expression is used in the driver)
+static std::string quantOne(double x, long long q) {
+  if (std::isnan(x)) return "nan";
+  if (std::isinf(x)) return "inf";
+  return std::to_string(q);
+}
+static long long quantize(double x, int k) {
+  double y = std::floor(std::ldexp(x, 24 - k) + 0.5);
+  if (!(std::fabs(y) < 9.0e18)) return y > 0 ? INT64_MAX : INT64_MIN;  // saturate like Float.toInt64 (NaN -> handled by caller)
+  return (long long)y;
+}
+static std::string quantList(const std::vector<Q>& v, int k) {
+  std::string s = "[";
+  for (size_t i = 0; i < v.size(); ++i) s += std::string(i ? "," : "") + quantOne((double)v[i], quantize((double)v[i], k));
+  return s + "]";
+}
+static std::string quantVec(const std::vector<Q>& v) {
+  std::vector<long long> q;
+  for (Q x : v) q.push_back(quantize((double)x, 0));
+  long long flip = 1;
+  for (auto x : q)
+    if (x != 0) { flip = x < 0 ? -1 : 1; break; }
+  std::string s = "[";
+  for (size_t i = 0; i < v.size(); ++i) s += std::string(i ? "," : "") + quantOne((double)v[i], q[i] * flip);
+  return s + "]";
+}
+
 template <class T, int n>
 SymOut callSym(bool lap, const Dune::FieldMatrix<T, n, n>& A) {
   SymOut o;
@@ -361,8 +394,10 @@ template <class T, int n>
 Result execSymTN(const std::vector<std::string>& w) {
   Result res;
   const std::string& route = w.at(3);
-  if (route != "cf" && route != "lap") throw std::runtime_error("bad route");
+  if (route != "cf" && route != "lap" && route != "cfq") throw std::runtime_error("bad route");
   bool lap = route == "lap";
+  bool quant = route == "cfq";
+  if (quant && (!std::is_same_v<T, double> || n > 3)) throw std::runtime_error("route cfq needs T = d and n <= 3");
   int k = std::stoi(w.at(4));
   if ((int)w.size() != 5 + n * (n + 1) / 2) throw std::runtime_error("wrong number of entries");
   Dune::FieldMatrix<T, n, n> A0, A;
@@ -389,6 +424,33 @@ Result execSymTN(const std::vector<std::string>& w) {
   res.impl = o.err.empty() ? "shape n=" + std::to_string(n) + " vals=" + std::to_string(o.w1.size()) + " vecs=" +
                                  std::to_string(o.V.size()) + "x" + std::to_string(o.V.empty() ? 0 : o.V[0].size())
                            : o.err;
+  if (quant && o.err.empty()) {
+    stat("sym_cfq_" + std::to_string(n));
+    res.impl += " qvals=" + quantList(o.w1, k) + " qvvals=" + quantList(o.w2, k) + " qvecs=[";
+    for (int i = 0; i < n; ++i) res.impl += std::string(i ? "," : "") + quantVec(o.V[i]);
+    res.impl += "]";
+  }
+  if (n == 3 && !lap && o.err.empty()) {
+    // which regions of the 3x3 closed form does this input reach (classified from the input's reference spectrum and the
+    // shape of the output, not from the code): diagonal special case, r >= 0 / r < 0, (nearly) double eigenvalue
+    std::vector<Q> mu = jacobiEigenvalues(3, Aq);
+    Q nrm = std::max(qabs(mu[0]), qabs(mu[2]));
+    bool perm = true;
+    for (auto& v : o.V) {
+      int nz = 0;
+      for (Q x : v) { if (x != 0) ++nz; if (x != 0 && x != 1 && x != -1) perm = false; }
+      if (nz != 1) perm = false;
+    }
+    stat(perm ? "cf3_unit_vectors" : (3 * mu[1] <= mu[0] + mu[1] + mu[2] ? "cf3_trig_rpos" : "cf3_trig_rneg"));
+    if (!perm && nrm > 0) {
+      Q g = std::min(mu[1] - mu[0], mu[2] - mu[1]) / nrm;
+      stat(g == 0 ? "cf3_gap_zero" : g < (Q)1e-12 ? "cf3_gap_tiny" : g < (Q)1e-6 ? "cf3_gap_small" : "cf3_gap_wide");
+    }
+  }
+  if (n == 2 && !lap && o.err.empty()) {
+    bool ident = o.V[0][0] == 1 && o.V[0][1] == 0 && o.V[1][0] == 0 && o.V[1][1] == 1;
+    stat(ident ? "cf2_identity_branch" : "cf2_general_branch");
+  }
   std::string f = checkSym(n, Aq, o, eps, sqrtClass, tag);
   if (f.empty() && k != 0) {
     // scale equivariance: same base matrix at magnitude 1
@@ -1042,7 +1104,6 @@ std::string genSymT(Rng& rng, int n, bool lap, const std::string& tier) {
     default: k = (int)rng.range(kmin, kmax); break;
   }
   (void)tier;
-  std::string line = std::string("sym ") + TInfo<T>::code + " " + std::to_string(n) + " " + (lap ? "lap" : "cf") + " " + std::to_string(k);
   // symmetrise before rounding so that the stored matrix is exactly symmetric; normalise the base matrix to
   // max |entry| in [1,2) (exact power of two) so that the magnitude of the executed matrix is 2^k
   std::vector<T> R(n * n);
@@ -1053,6 +1114,20 @@ std::string genSymT(Rng& rng, int n, bool lap, const std::string& tier) {
       mx = std::max(mx, (T)std::fabs(R[i * n + j]));
     }
   int lg = mx > 0 ? std::ilogb(mx) : 0;
+  // well-separated spectrum (decided on the matrix as stored, with the binary128 Jacobi reference): the answer is
+  // unique up to the signs of the vectors; compare it (quantised) with the Lean model over IEEE double
+  bool wellSep = false;
+  if (std::is_same_v<T, double> && !lap && n <= 3) {
+    std::vector<Q> Rq(n * n);
+    for (int i = 0; i < n; ++i)
+      for (int j = i; j < n; ++j) Rq[i * n + j] = Rq[j * n + i] = (Q)R[i * n + j];
+    std::vector<Q> sd = jacobiEigenvalues(n, Rq);
+    Q mxd = std::max(qabs(sd.front()), qabs(sd.back())), gap = mxd;
+    for (int i = 0; i + 1 < n; ++i) gap = std::min(gap, sd[i + 1] - sd[i]);
+    wellSep = mxd > 0 && gap >= mxd / 64;
+  }
+  if (wellSep) stat("gen_cfq");
+  std::string line = std::string("sym ") + TInfo<T>::code + " " + std::to_string(n) + " " + (lap ? "lap" : wellSep ? "cfq" : "cf") + " " + std::to_string(k);
   for (int i = 0; i < n; ++i)
     for (int j = i; j < n; ++j) line += " " + hexOf<T>((T)std::ldexp(R[i * n + j], -lg));
   return line;
@@ -1234,10 +1309,60 @@ std::string genNs(Rng& rng, bool fm) {
   return line;
 }
 
+// dense / patterned symmetric 2x2 and 3x3 matrices in double for the quantised comparison with the Lean model over IEEE
+// double (route cfq when the spectrum turns out well separated, cf otherwise): uniform entries, small integers, zero
+// patterns (block structure: exact coordinate eigenvectors, zero rows of A - lambda I, both orthoComp branches),
+// dominant diagonal
+static std::string genDenseQ(Rng& rng) {
+  int n = rng.coin(1, 3) ? 2 : 3;
+  std::vector<double> R(n * n, 0);
+  int kind = (int)rng.below(6);
+  auto ent = [&]() -> double {
+    switch (kind) {
+      case 0: case 3: case 4: return (double)sym1(rng);
+      case 1: return (double)rng.range(-4, 4);
+      case 2: return (double)rng.range(-8, 8) / 8.0;
+      default: return (double)(sym1(rng) * pow10ld(-(int)rng.range(0, 3)));
+    }
+  };
+  for (int i = 0; i < n; ++i)
+    for (int j = i; j < n; ++j) R[i * n + j] = R[j * n + i] = ent();
+  if (kind == 3 && n == 3) {  // zero pattern: one coordinate decouples
+    int z = (int)rng.below(3);
+    for (int j = 0; j < 3; ++j)
+      if (j != z) R[z * 3 + j] = R[j * 3 + z] = 0;
+  }
+  if (kind == 4)  // dominant diagonal
+    for (int i = 0; i < n; ++i) R[i * n + i] = (double)(rng.range(-3, 3) * 2 + sym1(rng) * 0.25L);
+  stat("dense_kind" + std::to_string(kind));
+  double mx = 0;
+  for (double x : R) mx = std::max(mx, std::fabs(x));
+  int lg = mx > 0 ? std::ilogb(mx) : 0;
+  std::vector<Q> Rq(n * n);
+  for (int i = 0; i < n * n; ++i) Rq[i] = (Q)R[i];
+  std::vector<Q> sd = jacobiEigenvalues(n, Rq);
+  Q mxd = std::max(qabs(sd.front()), qabs(sd.back())), gap = mxd;
+  for (int i = 0; i + 1 < n; ++i) gap = std::min(gap, sd[i + 1] - sd[i]);
+  bool wellSep = mxd > 0 && gap >= mxd / 64;
+  if (wellSep) stat("gen_cfq");
+  int k = 0;
+  switch (rng.below(5)) {
+    case 0: k = 0; break;
+    case 1: k = TInfo<double>::kminCF + (int)rng.below(8); break;
+    case 2: k = TInfo<double>::kmaxCF - (int)rng.below(8); break;
+    default: k = (int)rng.range(-60, 60); break;
+  }
+  std::string line = "sym d " + std::to_string(n) + (wellSep ? " cfq " : " cf ") + std::to_string(k);
+  for (int i = 0; i < n; ++i)
+    for (int j = i; j < n; ++j) line += " " + hexOf<double>(std::ldexp(R[i * n + j], -lg));
+  return line;
+}
+
 template <class T>
 std::string genT(Rng& rng, const Args& a) {
   long only = a.get("only", -1);
   int c = only >= 0 ? (int)only : (int)rng.below(100);
+  if (c < 14 && std::is_same_v<T, double>) return genDenseQ(rng);
   if (c < 30) return genSymT<T>(rng, (int)rng.range(1, 3), false, a.tier);                    // closed form
   if (c < 38) return genSymT<T>(rng, 2, false, a.tier);
   if (c < 46) return genSymT<T>(rng, 3, false, a.tier);
